@@ -62,7 +62,7 @@ for (crate, root, cat), spans in sorted(classified_sites(ctx).items()):
             if re.search(crx, cat) and re.search(frx, root):
                 why = w
                 break
-    if cat in ('unwrap:fmt', 'panic:covered', 'index:boundary'):
+    if cat in ('unwrap:fmt', 'panic:covered', 'index:boundary', 'unwrap:peeked'):
         continue  # discharged mechanically by rules/c01.py, not by this table
     if why is None:
         unreviewed.append((crate, root, cat, spans))
